@@ -401,6 +401,11 @@ func (e *Engine) callFunc(f *frame, st *State, callee *ssa.Function, bind []Val,
 	}
 	if v, ok := e.trustedCall(callee, args, st, reach, pos); ok {
 		e.trustedUsed[callee.String()] = true
+		if callee.String() == "time.Now" && e.pure == 0 {
+			// reading the clock is modelled (a fresh instant) and also recorded, so that contracts can name the reading
+			e.curState = st
+			e.record(Event{Guard: reach, Callee: callee.String(), Static: callee, Res: []Val{v}, Pos: pos})
+		}
 		return v, st, reach
 	}
 	display := fnDisplayName(callee)
